@@ -23,9 +23,12 @@ var filetypes = []filetype{
 	{[]string{"known_hosts"}, nil, nil, SSHKnownHosts},
 	{nil, []string{"ssh-dss", "ssh-rsa", "ecdsa-sha2-", "ssh-ed25519", "ssh-ed448"}, nil, SSHPublicKey},
 	{nil, nil, IsUUID, UUIDValue},
-	{nil, nil, IsASN1, ASN1File},
-	{nil, nil, IsBase64ASN1, Base64ASN1File},
+	// the text formats come before the binary one: any byte string "TLV" whose length octet happens to fit is one DER
+	// element, and text does fit now and then (every JWT starts "ey", an [APPLICATION 5] element of length 121, so a
+	// 123-byte token is also exactly one TLV; so is the 70-character base64 of a 52-byte DER SEQUENCE)
 	{nil, nil, IsJWT, JWTData},
+	{nil, nil, IsBase64ASN1, Base64ASN1File},
+	{nil, nil, IsASN1, ASN1File},
 	{nil, nil, IsMixedPEM, PEMFile},
 }
 
